@@ -20,6 +20,26 @@ NPDT = {"float64": onp.float64, "float32": onp.float32, "float16": onp.float16, 
 REVERSE_DICTS = [False]      # build dict values with reversed key insertion order (same space, same vector)
 
 
+NAMED = [None]      # the named-tuple type (numpy.linalg's EigResult, EighResult, QRResult, SlogdetResult, SVDResult) the ROOT tuple is built as
+ROOT = [None]
+
+
+def pos_is_root(sp):
+    return sp is ROOT[0]
+
+
+def named_types():
+    out = []
+    try:
+        from numpy.linalg import _linalg as L
+        for nm in ("EigResult", "EighResult", "QRResult", "SlogdetResult", "SVDResult"):
+            if hasattr(L, nm):
+                out.append(getattr(L, nm))
+    except Exception:     # noqa
+        pass
+    return out
+
+
 LAYOUT = ["C"]      # memory layout of the >= 2-D array leaves built next: the vector-space operations must not depend on it
 
 
@@ -49,6 +69,8 @@ def build(sp, flat, pos=0):
         v, pos = build(c, flat, pos)
         items.append(v)
     if k == "tuple":
+        if NAMED[0] is not None and pos_is_root(sp) and len(items) == len(NAMED[0]._fields):
+            return NAMED[0](*items), pos       # one of numpy.linalg's named-tuple result types: a tuple space of its own type
         return tuple(items), pos
     if k == "list":
         return list(items), pos
@@ -147,6 +169,12 @@ def run(case):
     sp = case["sp"]
     o = {"id": case["id"], "sp": sp, "x": case["x"], "y": case["y"], "z": case["z"], "a": case["a"], "b": case["b"], "err": ""}
     try:
+        # every third tuple-rooted space whose arity fits is built as one of numpy.linalg's named-tuple result types
+        ROOT[0], NAMED[0] = sp, None
+        if sp["k"] == "tuple" and case["id"] % 3 == 0:
+            fits = [t for t in named_types() if len(t._fields) == len(sp["items"])]
+            if fits:
+                NAMED[0] = fits[(case["id"] // 3) % len(fits)]
         LAYOUT[0] = ["C", "C", "F", "T"][case["id"] % 4]
         x, _ = build(sp, case["x"])
         REVERSE_DICTS[0] = case["id"] % 2 == 1      # two vectors of one space whose dicts were filled in different orders
@@ -188,14 +216,22 @@ def run(case):
         o["size"] = int(vs.size)
         o["basis"] = [flatten(sp, e) for e in vs.standard_basis()]
         o["x_intact"] = bool(json.dumps(flatten(sp, x)) == snap)
+        # closure: every vector an operation returns lies in the space of its operands (same container type, same space)
+        outs = [vs.add(x, y), vs.mut_add(None, x), vs.scalar_mul(x, float(case["a"])), vs.covector(x), vs.zeros(), vs.ones()] + list(vs.standard_basis())[:3]
+        cont = isinstance(x, (tuple, list, dict))
+        o["closed"] = bool(all((type(w) is type(x) if cont else True) and vspace(w) == vs for w in outs))
+        o["named"] = NAMED[0].__name__ if NAMED[0] is not None else ""
+        named = NAMED[0]
         eqs = []
         for nb in neighbours(sp):
             try:
+                ROOT[0], NAMED[0] = nb, named          # the neighbouring spaces are built as the same kind of tuple
                 w, _ = build(nb, [[0, 0]] * nslots(nb))
                 eqs.append({"sp": nb, "eq": bool(vs == vspace(w)), "eq_rev": bool(vspace(w) == vs), "ne": bool(vs != vspace(w))})
             except Exception as ex:     # noqa
                 pass
         o["eqs"] = eqs
+        NAMED[0] = None
     except Exception as ex:     # noqa
         import traceback
         o["err"] = type(ex).__name__ + ": " + str(ex)[:200] + " @ " + traceback.format_exc().splitlines()[-3].strip()[:120]
